@@ -125,7 +125,8 @@ def candidates(case):
                     yield new
     # knobs
     for key, neutral in (('stall_den', 0), ('tie_shuffle', False),
-                         ('base', 0.0), ('wall_offset', 0), ('entry', 'run')):
+                         ('base', 0.0), ('wall_offset', 0), ('entry', 'run'),
+                         ('noise', 0)):
         if case['knobs'].get(key) != neutral:
             new = variant()
             new['knobs'][key] = neutral
